@@ -18,6 +18,7 @@
 package main
 
 import (
+	"context"
 	"errors"
 	"fmt"
 	"os"
@@ -26,6 +27,7 @@ import (
 	"regexp"
 	"sort"
 	"strings"
+	"time"
 
 	"verif.local/lab/pipeline"
 	"verif.local/lab/protostub"
@@ -89,12 +91,32 @@ func overflowSite(stack string) string {
 	}
 	var cyc []string
 	for fn, n := range count {
-		if n >= 2 && !strings.HasPrefix(fn, "codegen/generator.") {
+		if n >= 4 && !strings.HasPrefix(fn, "codegen/generator.") {
 			cyc = append(cyc, fn)
 		}
 	}
 	sort.Strings(cyc)
 	return strings.Join(cyc, "+")
+}
+
+// rerunStderr executes the design's generator child once more (gen only) and returns its complete stderr.
+func rerunStderr(d *pipeline.Design) string {
+	tmp, err := os.MkdirTemp(filepath.Dir(d.Dir), "rerun")
+	if err != nil {
+		return d.Stack
+	}
+	defer os.RemoveAll(tmp)
+	ctx, cancel := context.WithTimeout(context.Background(), 2*time.Minute)
+	defer cancel()
+	cmd := exec.CommandContext(ctx, filepath.Join(filepath.Dir(d.Dir), "labgen.bin"), d.ID, tmp, "gen")
+	cmd.Dir = filepath.Dir(d.Dir)
+	var se strings.Builder
+	cmd.Stderr = &se
+	_ = cmd.Run()
+	if se.Len() == 0 {
+		return d.Stack
+	}
+	return se.String()
 }
 
 func firstLine(s string) string { return strings.SplitN(strings.TrimSpace(s), "\n", 2)[0] }
@@ -160,7 +182,12 @@ func judge(run *vc.Run, d *pipeline.Design, verbose bool) {
 		if os.Getenv("VERIF_DEBUG") != "" {
 			fmt.Fprintf(os.Stderr, "CRASH %s: %s\n%s\n%s\n", d.ID, d.Errors, headS(d.Stack, 3000), d.DSL)
 		}
-		if fn := overflowSite(d.Stack + "\n" + d.Stderr); fn != "" {
+		full := d.Stack + "\n" + d.Stderr
+		if strings.Contains(full, "stack overflow") {
+			// the pipeline keeps only the head and tail of stderr: run the child again to see every printed frame
+			full = rerunStderr(d)
+		}
+		if fn := overflowSite(full); fn != "" {
 			// the DSL was evaluated and accepted long before: the recursion is inside a generator
 			w.Stack = headS(d.Stack, 6000)
 			run.Violation("crash:stack-overflow:"+fn, "accepted gRPC design, the generator process dies with a stack overflow in "+fn, w)
